@@ -3042,6 +3042,47 @@ package gocql
 //@   trusted the three partitioners are pure functions of the key
 //@   modifies nothing
 
+// Token-aware metadata (C10): after every change of the host set, the partitioner or a keyspace, the published
+// metadata is a private copy in which FIRST the ring is rebuilt from the current hosts and THEN the replica map
+// of the keyspace is computed from that ring; it is published last.
+//@ func (m *clusterMeta) resetTokenRing
+//@   props C10
+//@   count_calls newTokenRing
+//@   requires m != nil && logger != nil && forall(k, 0 <= k && k < len(hosts), hosts[k] != nil)
+//@   modifies m.tokenRing
+//@   before[C10] newTokenRing: same(arg0, partitioner) && same(arg1, hosts)
+//@   ensures[C10] partitioner == "" ==> newTokenRing_calls == 0 && m.tokenRing == old(m.tokenRing)
+//@   ensures[C10] partitioner != "" ==> newTokenRing_calls == 1 && (newTokenRing_ret1 == nil ==> m.tokenRing == newTokenRing_ret0) && (newTokenRing_ret1 != nil ==> m.tokenRing == old(m.tokenRing))
+
+//@ func (t *tokenAwareHostPolicy) getMetadataForUpdate
+//@   trusted a private copy of the published metadata (atomic.Value load, shallow copy)
+//@   modifies nothing
+//@   ensures result != nil && fresh(result)
+
+//@ func (t *tokenAwareHostPolicy) updateReplicas
+//@   trusted computes the keyspace's replica map from meta.tokenRing with the keyspace's strategy (replicaMap: C10) and keeps the other keyspaces' maps; writes meta.replicas only
+//@   modifies meta.replicas
+
+//@ func (t *tokenAwareHostPolicy) AddHost
+//@   props C10
+//@   count_calls getMetadataForUpdate resetTokenRing updateReplicas Store cowHostList.add cowHostList.get HostSelectionPolicy.AddHost
+//@   requires host != nil && validhost(host) && cow_ptr(t.hosts) && cow_entries(t.hosts) && t.fallback != nil && t.getKeyspaceName != nil && t.logger != nil
+//@   before[C10] resetTokenRing: cowHostList_add_calls == 1 && cowHostList_add_ret0 && arg0 == getMetadataForUpdate_ret0 && same(arg1, t.partitioner) && cowHostList_get_calls == 1 && same(arg2, cowHostList_get_ret0) && updateReplicas_calls == 0
+//@   before[C10] updateReplicas: resetTokenRing_calls == 1 && arg1 == getMetadataForUpdate_ret0 && Store_calls == 0
+//@   before[C10] Store: updateReplicas_calls == 1 && typeis(arg1, *clusterMeta) && unbox(arg1, *clusterMeta) == getMetadataForUpdate_ret0
+//@   at_return[C10] cowHostList_add_calls == 1 && (cowHostList_add_ret0 ==> Store_calls == 1) && (!cowHostList_add_ret0 ==> Store_calls == 0 && resetTokenRing_calls == 0) && HostSelectionPolicy_AddHost_calls == 1
+
+//@ func (t *tokenAwareHostPolicy) RemoveHost
+//@   props C10
+//@   count_calls getMetadataForUpdate resetTokenRing updateReplicas Store cowHostList.remove cowHostList.get HostSelectionPolicy.RemoveHost
+//@   requires host != nil && validhost(host) && cow_ptr(t.hosts) && cow_entries(t.hosts) && t.fallback != nil && t.getKeyspaceName != nil && t.logger != nil
+// the list holds no two hosts with one address (add refuses them), so removing by address leaves no hole
+//@   assume_after cowHostList.remove: cow_entries(t.hosts)
+//@   before[C10] resetTokenRing: cowHostList_remove_calls == 1 && cowHostList_remove_ret0 && arg0 == getMetadataForUpdate_ret0 && same(arg1, t.partitioner) && cowHostList_get_calls == 1 && same(arg2, cowHostList_get_ret0) && updateReplicas_calls == 0
+//@   before[C10] updateReplicas: resetTokenRing_calls == 1 && arg1 == getMetadataForUpdate_ret0 && Store_calls == 0
+//@   before[C10] Store: updateReplicas_calls == 1 && typeis(arg1, *clusterMeta) && unbox(arg1, *clusterMeta) == getMetadataForUpdate_ret0
+//@   at_return[C10] cowHostList_remove_calls == 1 && (cowHostList_remove_ret0 ==> Store_calls == 1) && (!cowHostList_remove_ret0 ==> Store_calls == 0 && resetTokenRing_calls == 0) && HostSelectionPolicy_RemoveHost_calls == 1
+
 // Pick establishes the iterator's invariant (closure-requires obligations).
 //@ func (t *tokenAwareHostPolicy) Pick
 //@   props C11
